@@ -43,6 +43,33 @@ for meta in sorted(glob.glob(os.path.join(V, 'seeded', '*', 'meta.json'))):
     finally:
         shutil.rmtree(d, ignore_errors=True)
 res['seeds'] = seeds
+# ---- 1c behaviour-preserving refactorings: the property's rules must stay silent on each
+refs = []
+def one_ref(rd):
+    d = tempfile.mkdtemp(prefix='vref-')
+    try:
+        w = os.path.join(d, 'w')
+        shutil.copytree(REPO, w, ignore=shutil.ignore_patterns('.git'))
+        p = subprocess.run(['patch', '-p1', '-s', '-i', os.path.join(rd, 'patch.diff')], cwd=w, capture_output=True, text=True)
+        if p.returncode != 0:
+            return {'id': os.path.basename(rd), 'status': 'patch does not apply to the current tree'}
+        b = subprocess.run(['go', 'build', './...'], cwd=w, env=ENV, capture_output=True, text=True)
+        if b.returncode != 0:
+            return {'id': os.path.basename(rd), 'status': 'does not build on the current tree'}
+        v = subprocess.run([os.path.join(V, 'bin', 'vcheck'), '-repo', w, '-verif', os.path.join(d, 'o'), '-known', os.path.join(V, 'known_findings.json'), '-p', prop],
+                           env=ENV, capture_output=True, text=True)
+        rules = sorted(set(l.split()[1] for l in v.stdout.splitlines() if l.strip().startswith('[')))
+        return {'id': os.path.basename(rd), 'status': {0: 'silent', 1: 'FALSE-ALARM', 2: 'no verdict'}.get(v.returncode, 'rc%d' % v.returncode), 'rules': rules}
+    finally:
+        shutil.rmtree(d, ignore_errors=True)
+try:
+    import concurrent.futures as cf
+    with cf.ThreadPoolExecutor(max_workers=6) as ex:
+        refs = list(ex.map(one_ref, sorted(glob.glob(os.path.join(V, 'refactors', '*')))))
+except Exception as e:
+    refs = [{'error': str(e)}]
+res['refactorings'] = {'total': len(refs), 'silent': sum(1 for r in refs if r.get('status') == 'silent'),
+                       'false_alarms': [r['id'] for r in refs if r.get('status') == 'FALSE-ALARM'], 'list': refs}
 # ---- 2 second toolchain
 try:
     src = os.path.join(V, 'checker')
